@@ -143,6 +143,15 @@ CHECKS = {
         note="Partial by nature: pyo3 marshalling (BigUint -> int, Option -> None, str, f64) is trusted and validated through CPython only. all_changes is modelled but its theorem is the C05 position-by-position agreement. "
              "Two defects were repaired (F16, F17). Requires python3 with the CPython ABI pywellen was built for (the sandbox's python3).",
     ),
+    "C17": dict(
+        technique="Lean 4 proof (round trip ofS ∘ toS = id over the serde data model of every derived type, structural) + differential: real serde_json output reproduced by the model, real round trip preserves every observer",
+        text="Lean theorems C17_hier_roundtrip, C17_signal_roundtrip, C17_varindex_roundtrip, C17_rejects_zero over a model of the serde data model (struct = map of fields, newtype = inner, unit variant = name, "
+             "Option = null/value, NonZero = integer with zero rejected, HashMap<SignalRef,_> = map keyed by decimal text). The harness (serde1 feature) serialises real hierarchies and signals of corpus and generated "
+             "files with serde_json; the Lean driver decodes and re-encodes that JSON with the model and must reproduce it exactly; the real deserialised objects must agree with the originals on every observer.",
+        design_ref="DESIGN.md section 5 / C17",
+        note="Partial by nature: the expansion of #[derive(Serialize, Deserialize)] and serde_json's text layer are trusted (validated by the differential run); the Lean records contain exactly the serialised fields, "
+             "so equal records = identical behaviour under every accessor. The map round trip assumes decimal text parses back (KeyOk hypothesis). Only a self-describing format (JSON) is exercised.",
+    ),
 }
 
 NOT_YET = "check not built yet in this round (machinery under construction; see DESIGN.md section 10 for the order of work)"
